@@ -2,7 +2,7 @@
    [iter true] is the loop with the exit on a disconnected cache-message channel, which the printed
    hot_reloading_thread has (first theorem). *)
 From Coq Require Import List Bool Arith.
-From AM Require Import Rust.Ast Gen.HotReloading Ref.Reloader Proofs.Reloader Tie.Answers.
+From AM Require Import Rust.Ast Gen.HotReloading Ref.Reloader Proofs.Reloader Tie.Answers Gen.Watcher Tie.Watcher.
 Import ListNotations.
 
 Theorem C15_code_leaves_the_loop_when_the_cache_is_gone :
@@ -12,6 +12,11 @@ Proof. exact (conj reloader_loop_exits_with_its_cache cache_messages_first). Qed
 (* ... and when its source let go of the event sender (a disconnected channel is permanently ready) *)
 Theorem C15_code_leaves_the_loop_when_events_are_over : events_branch_wf hot_reloading_thread = true.
 Proof. exact reloader_leaves_when_events_are_over. Qed.
+
+(* the built-in watcher lets go of itself (thread, inotify instance) as soon as a send tells it that
+   its reloader is gone *)
+Theorem C15_code_watcher_lets_go_when_nobody_listens : handle_event_frame_wf Gen.Watcher.handle_event = true.
+Proof. exact handle_event_frame. Qed.
 
 (* idle: both inboxes empty and connected => the thread blocks and consumes nothing *)
 Theorem C15_idle_blocks : forall x p s,
